@@ -1,8 +1,9 @@
 (** Proofs about Model/OpRace.v: the race between futures polled / dropped on future threads
     and [Ring::poll] on the ring thread, at the granularity of the hook-B scheduling points.
-    Statements for C03 (wake-ups) and C06 (reclamation, cancellation) over ALL numbers of
-    operations and threads, capacities, programs and interleavings: one invariant, proved by
-    induction over the event list. *)
+    Statements for C02 (own results, once, in order), C03 (wake-ups) and C06 (reclamation,
+    cancellation) over ALL numbers of operations and threads, operation kinds (single-shot,
+    multishot, two-step), kernel completion scripts, capacities, programs and interleavings: one
+    invariant, proved by induction over the event list. *)
 From A10 Require Import Base.Word Base.Run Model.OpRace.
 From Coq Require Import ZifyN ZifyBool ZifyNat Permutation.
 Ltac Zify.zify_post_hook ::= Z.div_mod_to_equations.
@@ -27,11 +28,34 @@ Definition progs_ok (progs : list (list call)) : Prop :=
 
 (** * Counting what the kernel owes an operation *)
 Definition is_submit (i : nat) (e : sqe) : bool := match e with Submit j => Nat.eqb j i | Cancel _ => false end.
-Definition is_cop (i : nat) (c : centry) : bool := match c with COp j => Nat.eqb j i | CBook => false end.
+Definition is_cop (i : nat) (c : centry) : bool := match c with COp j _ => Nat.eqb j i | CBook => false end.
+(** A FINAL completion of operation [i] (no IORING_CQE_F_MORE). *)
+Definition is_fin (i : nat) (c : centry) : bool :=
+  match c with COp j x => Nat.eqb j i && negb (c_more x) | CBook => false end.
 Definition cnt {A : Type} (f : A -> bool) (l : list A) : nat := length (filter f l).
-(** Submissions queued, requests in flight and completions posted-and-unprocessed of operation [i]. *)
+(** What the kernel still owes operation [i] before it is done with it: its submission queued, its
+    request in flight, or its FINAL completion posted and not yet processed. (Completions with
+    F_MORE are not counted: more will come.) *)
 Definition tokens (s : sys) (i : nat) : nat :=
-  cnt (is_submit i) (sq s) + cnt (Nat.eqb i) (inflight s) + cnt (is_cop i) (cq s).
+  cnt (is_submit i) (sq s) + cnt (Nat.eqb i) (inflight s) + cnt (is_fin i) (cq s).
+(** Every completion of [i] waiting in the queue has the request still in flight or a final
+    completion of [i] at or behind it: the kernel posts nothing after a final completion. *)
+Fixpoint covered (i : nat) (nfl : nat) (q : list centry) : Prop :=
+  match q with
+  | [] => True
+  | e :: r => (is_cop i e = true -> 1 <= nfl + cnt (is_fin i) q) /\ covered i nfl r
+  end.
+(** The completions of operation [i] in a queue, in order. *)
+Definition ents (i : nat) (q : list centry) : list cqe :=
+  flat_map (fun e => match e with COp j c => if Nat.eqb j i then [c] else [] | CBook => [] end) q.
+(** LEDGER of what the kernel posted for operation [i]: what was dispatched to it ([g_disp], ghost)
+    followed by what is waiting in the completion queue (real state). It only grows, at its end
+    (clause (P) of [race_results_are_own_in_order]). *)
+Definition posted (s : sys) (i : nat) : list cqe := g_disp (ops s i) ++ ents i (cq s).
+Definition has_final (l : list cqe) : bool := existsb (fun c => negb (c_more c)) l.
+(** [Singleshot::update] over a list of completions: the result of the last one without F_NOTIF. *)
+Definition last_res (l : list cqe) : Z := fold_left (fun acc c => if c_notif c then acc else c_res c) l 0%Z.
+Definition is_multi (k : kind) : bool := match k with Multi => true | _ => false end.
 (** The kernel may still touch the operation's state: submitted and not yet reaped. *)
 Definition live (x : status) : bool := match x with Running | Dropped => true | _ => false end.
 
@@ -66,10 +90,28 @@ Definition P_lin (s : sys) : Prop := forall t, linear (f_prog (thr s t)).
 Definition P_gone (s : sys) : Prop :=
   forall i, o_alloc (ops s i) = false \/ o_st (ops s i) = Dropped -> forall t, ~ uses (f_prog (thr s t)) i.
 Definition P_thr (s : sys) : Prop := forall t, thread_ok s t.
-(** C03 *)
-Definition P_A (s : sys) : Prop := forall i, o_st (ops s i) = Running -> o_waker (ops s i) = g_lastw (ops s i).
+(** C03: while the latest waker has not been woken it is the stored one; for a stream, no result is queued either *)
+Definition P_A (s : sys) : Prop :=
+  forall i w, o_st (ops s i) = Running -> g_lastw (ops s i) = Some w -> g_woken (ops s i) = false ->
+    o_waker (ops s i) = Some w /\ (o_kind (ops s i) = Multi -> o_q (ops s i) = []).
 Definition P_B (s : sys) : Prop :=
   forall i w, o_st (ops s i) = Done -> g_lastw (ops s i) = Some w -> g_woken (ops s i) = true.
+(** C02: the ledgers of one operation *)
+Definition ledger_ok (o : op) : Prop :=
+  (o_st o = NotStarted -> g_disp o = [] /\ g_out o = [])
+  /\ (o_st o = Done \/ o_st o = Complete -> has_final (g_disp o) = true)
+  /\ match o_kind o with
+     | Multi =>
+         (exists rest, map c_res (g_disp o) = g_out o ++ rest)
+         /\ (o_st o = Running \/ o_st o = Done -> map c_res (g_disp o) = g_out o ++ o_q o)
+         /\ (o_st o = Complete -> map c_res (g_disp o) = g_out o)
+     | Single | TwoStep =>
+         (o_st o = Running \/ o_st o = Done -> o_res o = last_res (g_disp o) /\ g_out o = [])
+         /\ (o_st o = Complete -> g_out o = [last_res (g_disp o)])
+         /\ (o_st o = Dropped -> g_out o = [])
+     end.
+Definition P_L (s : sys) : Prop := forall i, ledger_ok (ops s i).
+Definition P_cov (s : sys) : Prop := forall i, covered i (cnt (Nat.eqb i) (inflight s)) (cq s).
 (** C06 / C01 *)
 Definition P_tk (s : sys) : Prop :=
   forall i, tokens s i = if o_alloc (ops s i) && live (o_st (ops s i)) then 1 else 0.
@@ -89,20 +131,22 @@ Definition P_park (s : sys) : Prop := Permutation (g_parked s) (g_bwoken s ++ bl
 
 Record Inv (s : sys) : Prop := {
   inv_own : P_own s; inv_lin : P_lin s; inv_gone : P_gone s; inv_thr : P_thr s;
-  inv_A : P_A s; inv_B : P_B s;
+  inv_A : P_A s; inv_B : P_B s; inv_L : P_L s; inv_cov : P_cov s;
   inv_tk : P_tk s; inv_F : P_F s; inv_C : P_C s; inv_C2 : P_C2 s; inv_bad : P_bad s;
   inv_sq : P_sq s; inv_wb : P_wb s; inv_park : P_park s;
 }.
 
 (** * Tactics: projections of updated records *)
 Ltac ssimpl :=
-  cbn [cap auto ops sqh sqt sq sub_holder inflight cq blocked r_pc r_polls r_lh r_n r_end r_avail
+  cbn [cap auto ops sqh sqt sq sub_holder inflight scripts cq blocked r_pc r_polls r_lh r_n r_end r_avail
        r_rest thr g_parked g_bwoken g_bad
-       set_ops set_op set_thr set_sq set_sub_holder set_kernel set_blocked set_ring set_rpc set_bad
+       set_ops set_op set_thr set_sq set_sub_holder set_kernel set_kernel_scr set_blocked set_ring set_rpc set_bad
        poll_return fst snd
        f_pc f_prog f_lh at_pc at_pc_lh call_done dead
-       o_st o_waker o_holder o_alloc o_started o_cancelable g_lastw g_woken g_frees g_cancels
-       mk_op o_lock o_unlock o_repoll o_submitted o_ready o_parked o_dropped o_free o_completed] in *.
+       o_kind o_st o_waker o_holder o_alloc o_started o_cancelable o_res o_q
+       g_lastw g_woken g_frees g_cancels g_disp g_out
+       mk_op o_lock o_unlock o_repoll o_submitted o_ready o_item o_end o_parked o_dropped o_free o_seen
+       o_accept] in *.
 
 Lemma upd_same {A} (f : nat -> A) i x : upd f i x i = x.
 Proof. unfold upd. rewrite Nat.eqb_refl. reflexivity. Qed.
@@ -160,72 +204,166 @@ Proof. intros [->|[->| ->]] H; [exact H|apply linear_tl; exact H|exact I]. Qed.
 
 (** * Frames: the kernel and the dispatch loop *)
 
+Lemma covered_mono i n n' q : covered i n q -> n <= n' -> covered i n' q.
+Proof.
+  intros H Hle. induction q as [|e r IH]; [exact I|]. destruct H as [H1 H2].
+  split; [intros Hc; specialize (H1 Hc); lia|exact (IH H2)].
+Qed.
+
+(** Appending a completion while the in-flight count goes from [n] to [n']. *)
+Lemma covered_app i n n' q e :
+  covered i n q -> n <= n' + (if is_fin i e then 1 else 0) ->
+  (is_cop i e = true -> 1 <= n' + (if is_fin i e then 1 else 0)) ->
+  covered i n' (q ++ [e]).
+Proof.
+  intros H Hle He. induction q as [|x r IH]; cbn [app covered].
+  - split; [|exact I]. intros Hc. rewrite cnt_cons, cnt_nil. specialize (He Hc). lia.
+  - destruct H as [H1 H2]. split; [|exact (IH H2)].
+    intros Hc. specialize (H1 Hc). change (x :: r ++ [e]) with ((x :: r) ++ [e]).
+    rewrite cnt_app, (cnt_cons _ e), cnt_nil. lia.
+Qed.
+
+Lemma covered_tl i n e q : covered i n (e :: q) -> covered i n q.
+Proof. intros [_ H]. exact H. Qed.
+
+Lemma ents_app i q1 q2 : ents i (q1 ++ q2) = ents i q1 ++ ents i q2.
+Proof. unfold ents. apply flat_map_app. Qed.
+
+Lemma is_fin_cop i e : is_fin i e = true -> is_cop i e = true.
+Proof. destruct e as [j c|]; cbn [is_fin is_cop]; [|discriminate]. destruct (Nat.eqb j i); [reflexivity|discriminate]. Qed.
+
+(** What the kernel does to its own state when it consumes submissions / posts: the in-flight
+    table and the completion queue change, the queue only by appending. *)
+Definition kframe (s : sys) (fl : list nat) (q : list centry) (extra : nat -> nat) : Prop :=
+  (forall i, cnt (Nat.eqb i) fl + cnt (is_fin i) q
+             = cnt (Nat.eqb i) (inflight s) + cnt (is_fin i) (cq s) + extra i)
+  /\ (forall i, covered i (cnt (Nat.eqb i) (inflight s)) (cq s) -> covered i (cnt (Nat.eqb i) fl) q)
+  /\ (exists add, q = cq s ++ add).
+
 Lemma kconsume_eq s e : exists fl q, kconsume s e = set_kernel s fl q
-  /\ (forall i, cnt (Nat.eqb i) fl + cnt (is_cop i) q
-                = cnt (Nat.eqb i) (inflight s) + cnt (is_cop i) (cq s) + (if is_submit i e then 1 else 0)).
+  /\ kframe s fl q (fun i => if is_submit i e then 1 else 0).
 Proof.
   destruct e as [j|j]; cbn [kconsume is_submit].
   - destruct (auto s).
-    + exists (inflight s), (cq s ++ [COp j]). split; [reflexivity|]. intros i.
-      rewrite cnt_app, cnt_cons, cnt_nil. cbn [is_cop]. lia.
-    + exists (inflight s ++ [j]), (cq s). split; [reflexivity|]. intros i.
-      rewrite cnt_app, cnt_cons, cnt_nil. rewrite (Nat.eqb_sym i j). lia.
+    + exists (inflight s), (cq s ++ [COp j auto_cqe]). split; [reflexivity|]. split; [|split].
+      * intros i. rewrite cnt_app, cnt_cons, cnt_nil. cbn [is_fin auto_cqe fin c_more negb]. rewrite andb_true_r. lia.
+      * intros i H. apply (covered_app i _ _ _ _ H); cbn [is_fin is_cop auto_cqe fin c_more negb]; rewrite andb_true_r;
+          destruct (Nat.eqb j i); intros; try discriminate; lia.
+      * eexists; reflexivity.
+    + exists (inflight s ++ [j]), (cq s). split; [reflexivity|]. split; [|split].
+      * intros i. rewrite cnt_app, cnt_cons, cnt_nil. rewrite (Nat.eqb_sym i j). lia.
+      * intros i H. apply (covered_mono i _ _ _ H). rewrite cnt_app. lia.
+      * exists []. rewrite app_nil_r. reflexivity.
   - destruct (mem j (inflight s)) eqn:Hm; [destruct (o_cancelable (ops s j))|].
-    + exists (remove_first j (inflight s)), (cq s ++ [COp j]). split; [reflexivity|]. intros i.
-      rewrite cnt_app, cnt_cons, cnt_nil. cbn [is_cop].
-      destruct (Nat.eqb_spec j i) as [->|Hne].
-      * pose proof (cnt_remove_same i _ Hm). lia.
-      * rewrite cnt_remove_other by congruence. lia.
-    + exists (inflight s), (cq s ++ [CBook]). split; [reflexivity|]. intros i.
-      rewrite cnt_app, cnt_cons, cnt_nil. cbn [is_cop]. lia.
-    + exists (inflight s), (cq s ++ [CBook]). split; [reflexivity|]. intros i.
-      rewrite cnt_app, cnt_cons, cnt_nil. cbn [is_cop]. lia.
+    + exists (remove_first j (inflight s)), (cq s ++ [COp j (fin (- ECANCELED))]). split; [reflexivity|]. split; [|split].
+      * intros i. rewrite cnt_app, cnt_cons, cnt_nil. cbn [is_fin fin c_more negb]. rewrite andb_true_r.
+        destruct (Nat.eqb_spec j i) as [->|Hne].
+        -- pose proof (cnt_remove_same i _ Hm). lia.
+        -- rewrite cnt_remove_other by congruence. lia.
+      * intros i H. apply (covered_app i _ _ _ _ H); cbn [is_fin is_cop fin c_more negb]; rewrite andb_true_r;
+          destruct (Nat.eqb_spec j i) as [->|Hne]; intros; try discriminate;
+          try (pose proof (cnt_remove_same i _ Hm); lia); rewrite cnt_remove_other by congruence; lia.
+      * eexists; reflexivity.
+    + exists (inflight s), (cq s ++ [CBook]). split; [reflexivity|]. split; [|split].
+      * intros i. rewrite cnt_app, cnt_cons, cnt_nil. cbn [is_fin]. lia.
+      * intros i H. apply (covered_app i _ _ _ _ H); cbn [is_fin is_cop]; intros; try discriminate; lia.
+      * eexists; reflexivity.
+    + exists (inflight s), (cq s ++ [CBook]). split; [reflexivity|]. split; [|split].
+      * intros i. rewrite cnt_app, cnt_cons, cnt_nil. cbn [is_fin]. lia.
+      * intros i H. apply (covered_app i _ _ _ _ H); cbn [is_fin is_cop]; intros; try discriminate; lia.
+      * eexists; reflexivity.
 Qed.
 
 Lemma kconsume_all_eq taken : forall s, exists fl q, fold_left kconsume taken s = set_kernel s fl q
-  /\ (forall i, cnt (Nat.eqb i) fl + cnt (is_cop i) q
-                = cnt (Nat.eqb i) (inflight s) + cnt (is_cop i) (cq s) + cnt (is_submit i) taken).
+  /\ kframe s fl q (fun i => cnt (is_submit i) taken).
 Proof.
   induction taken as [|e r IH]; intros s; cbn [fold_left].
-  - exists (inflight s), (cq s). split; [destruct s; reflexivity|]. intros i. rewrite cnt_nil. lia.
-  - destruct (kconsume_eq s e) as [fl1 [q1 [E1 H1]]]. rewrite E1.
-    destruct (IH (set_kernel s fl1 q1)) as [fl2 [q2 [E2 H2]]]. rewrite E2.
-    exists fl2, q2. split; [reflexivity|]. intros i. specialize (H1 i). specialize (H2 i).
-    ssimpl. rewrite cnt_cons. lia.
+  - exists (inflight s), (cq s). split; [destruct s; reflexivity|]. split; [|split].
+    + intros i. rewrite cnt_nil. lia.
+    + intros i H. exact H.
+    + exists []. rewrite app_nil_r. reflexivity.
+  - destruct (kconsume_eq s e) as [fl1 [q1 [E1 [H1 [C1 [a1 A1]]]]]]. rewrite E1.
+    destruct (IH (set_kernel s fl1 q1)) as [fl2 [q2 [E2 [H2 [C2 [a2 A2]]]]]]. rewrite E2.
+    exists fl2, q2. split; [reflexivity|]. split; [|split].
+    + intros i. specialize (H1 i). specialize (H2 i). ssimpl. rewrite cnt_cons. lia.
+    + intros i H. apply (C2 i). ssimpl. apply (C1 i). exact H.
+    + ssimpl. subst q1 q2. exists (a1 ++ a2). rewrite app_assoc. reflexivity.
 Qed.
 
-Lemma skip_book_cnt n q : forall i, cnt (is_cop i) (snd (skip_book n q)) = cnt (is_cop i) q.
+(** The kernel posts the next scripted completion of a request. *)
+Lemma kpost_eq s i : exists fl sc q, kpost s i = set_kernel_scr s fl sc q /\ kframe s fl q (fun _ => 0).
 Proof.
-  revert q. induction n as [|n IH]; intros q i; [reflexivity|].
-  destruct q as [|[j|] q']; cbn [skip_book snd]; [reflexivity|reflexivity|].
-  rewrite IH, cnt_cons. reflexivity.
+  unfold kpost. destruct (mem i (inflight s)) eqn:Hm.
+  2:{ exists (inflight s), (scripts s), (cq s). split; [destruct s; reflexivity|]. split; [|split].
+      - intros j. lia.
+      - intros j H. exact H.
+      - exists []. rewrite app_nil_r. reflexivity. }
+  destruct (scripts s i) as [|c r] eqn:Hs.
+  { exists (inflight s), (scripts s), (cq s). split; [destruct s; reflexivity|]. split; [|split].
+    - intros j. lia.
+    - intros j H. exact H.
+    - exists []. rewrite app_nil_r. reflexivity. }
+  pose proof (mem_cnt i _ Hm) as Hge.
+  destruct (c_more c) eqn:Hmore.
+  - exists (inflight s), (upd (scripts s) i r), (cq s ++ [COp i c]). split; [reflexivity|]. split; [|split].
+    + intros j. rewrite cnt_app, cnt_cons, cnt_nil. cbn [is_fin]. rewrite Hmore. cbn [negb]. rewrite andb_false_r. lia.
+    + intros j H. apply (covered_app j _ _ _ _ H); cbn [is_fin is_cop]; rewrite Hmore; cbn [negb]; rewrite andb_false_r; [lia|].
+      destruct (Nat.eqb_spec i j) as [->|Hne]; intros; try discriminate. lia.
+    + eexists; reflexivity.
+  - exists (remove_first i (inflight s)), (upd (scripts s) i r), (cq s ++ [COp i c]). split; [reflexivity|]. split; [|split].
+    + intros j. rewrite cnt_app, cnt_cons, cnt_nil. cbn [is_fin]. rewrite Hmore. cbn [negb]. rewrite andb_true_r.
+      destruct (Nat.eqb_spec i j) as [->|Hne].
+      * pose proof (cnt_remove_same j _ Hm). lia.
+      * rewrite cnt_remove_other by congruence. lia.
+    + intros j H. apply (covered_app j _ _ _ _ H); cbn [is_fin is_cop]; rewrite Hmore; cbn [negb]; rewrite andb_true_r;
+        destruct (Nat.eqb_spec i j) as [->|Hne]; intros; try discriminate;
+        try (pose proof (cnt_remove_same j _ Hm); lia); rewrite cnt_remove_other by congruence; lia.
+    + eexists; reflexivity.
+Qed.
+
+Lemma skip_book_frame n q : forall i,
+  cnt (is_fin i) (snd (skip_book n q)) = cnt (is_fin i) q
+  /\ ents i (snd (skip_book n q)) = ents i q
+  /\ (forall m, covered i m q -> covered i m (snd (skip_book n q))).
+Proof.
+  revert q. induction n as [|n IH]; intros q i; [split; [reflexivity|split; [reflexivity|auto]]|].
+  destruct q as [|[j c|] q']; cbn [skip_book snd];
+    [split; [reflexivity|split; [reflexivity|auto]]|split; [reflexivity|split; [reflexivity|auto]]|].
+  destruct (IH q' i) as [H1 [H2 H3]]. rewrite H1, H2, cnt_cons. cbn [is_fin ents flat_map app].
+  split; [reflexivity|split; [reflexivity|]]. intros m [_ H]. apply H3. exact H.
 Qed.
 
 (** [advance] only drops bookkeeping completions and moves the ring thread to the operation's
     mutex or to the head store. *)
 Lemma advance_eq s : exists q n p,
   advance s = set_ring (set_kernel s (inflight s) q) p (r_polls s) (r_lh s) n (r_end s) (r_avail s) (r_rest s)
-  /\ (forall i, cnt (is_cop i) q = cnt (is_cop i) (cq s))
+  /\ (forall i, cnt (is_fin i) q = cnt (is_fin i) (cq s))
+  /\ (forall i, ents i q = ents i (cq s))
+  /\ (forall i m, covered i m (cq s) -> covered i m q)
   /\ (p = RDisp \/ p = RStoreHead).
 Proof.
-  unfold advance. pose proof (skip_book_cnt (r_n s) (cq s)) as Hc.
+  unfold advance. pose proof (skip_book_frame (r_n s) (cq s)) as Hc.
   destruct (skip_book (r_n s) (cq s)) as [n q]. cbn [snd] in Hc.
-  destruct n as [|n']; [|destruct q as [|[j|] q']];
-    eexists _, _, _; (split; [reflexivity|split; [exact Hc|auto]]).
+  destruct n as [|n']; [|destruct q as [|[j c|] q']];
+    eexists _, _, _; (split; [reflexivity|]); (split; [intros i; apply (Hc i)|]);
+    (split; [intros i; apply (Hc i)|]); (split; [intros i; apply (Hc i)|auto]).
 Qed.
 
 (** * Initial state *)
-Lemma init_inv cap0 auto0 canc npolls progs : progs_ok progs -> Inv (init cap0 auto0 canc npolls progs).
+Lemma init_inv cap0 auto0 kinds canc scr npolls progs : progs_ok progs -> Inv (init cap0 auto0 kinds canc scr npolls progs).
 Proof.
   intros [Hlin Hown].
-  constructor; unfold P_own, P_lin, P_gone, P_thr, thread_ok, P_A, P_B, P_tk, P_F, P_C, P_C2, P_bad, P_sq, P_wb, P_park;
-    cbn [init ops thr f_prog f_pc new_op o_st o_alloc o_waker g_lastw
+  constructor; unfold P_own, P_lin, P_gone, P_thr, thread_ok, P_A, P_B, P_L, ledger_ok, P_cov, P_tk, P_F, P_C, P_C2, P_bad, P_sq, P_wb, P_park;
+    cbn [init ops thr f_prog f_pc new_op o_kind o_st o_alloc o_waker o_res o_q g_lastw g_disp g_out
     g_frees g_cancels o_holder g_woken sq sqh sqt cq inflight blocked r_pc r_avail r_rest r_lh g_parked
-    g_bwoken g_bad cap]; unfold tokens; cbn [init sq inflight cq ops new_op o_alloc o_st live andb]; intros;
+    g_bwoken g_bad cap covered]; unfold tokens; cbn [init sq inflight cq ops new_op o_alloc o_st live andb]; intros;
     try discriminate; try reflexivity; auto.
   - eapply Hown; eassumption.
   - destruct H as [H|H]; discriminate.
   - split; intros; discriminate.
+  - split; [auto|]. split; [intros [H|H]; discriminate|].
+    destruct (nth i kinds Single); repeat split; intros; try discriminate; try (destruct H; discriminate); auto.
+    exists []. reflexivity.
   - contradiction.
   - split; [lia|reflexivity].
   - split; [|split]; intros; try discriminate; reflexivity.
@@ -239,10 +377,16 @@ Ltac expose_frames :=
   repeat match goal with
   | |- context [advance ?x] =>
       let E := fresh "Eadv" in let Hc := fresh "Hadvc" in let Hp := fresh "Hadvp" in
-      destruct (advance_eq x) as [?q [?n [?p [E [Hc Hp]]]]]; rewrite E; clear E
+      let He := fresh "Hadve" in let Hv := fresh "Hadvcov" in
+      destruct (advance_eq x) as [?q [?n [?p [E [Hc [He [Hv Hp]]]]]]]; rewrite E; clear E
   | |- context [fold_left kconsume ?l ?x] =>
       let E := fresh "Ekc" in let Hc := fresh "Hkc" in
-      destruct (kconsume_all_eq l x) as [?fl [?q [E Hc]]]; rewrite E; clear E
+      let Hv := fresh "Hkcov" in let Ha := fresh "Hkadd" in
+      destruct (kconsume_all_eq l x) as [?fl [?q [E [Hc [Hv Ha]]]]]; rewrite E; clear E
+  | |- context [kpost ?x ?i] =>
+      let E := fresh "Ekp" in let Hc := fresh "Hkc" in
+      let Hv := fresh "Hkcov" in let Ha := fresh "Hkadd" in
+      destruct (kpost_eq x i) as [?fl [?sc [?q [E [Hc [Hv Ha]]]]]]; rewrite E; clear E
   end.
 
 Ltac split_matches :=
@@ -267,14 +411,14 @@ Ltac fut_split s k HI :=
   split_matches.
 
 Ltac ring_split s :=
-  unfold rstep_with, dispatch, o_update, enter, wb_done, begin_dispatch, kcomplete; cbv beta iota zeta;
+  unfold rstep_with, rstep_gen, dispatch_with, o_update, enter, wb_done, begin_dispatch; cbv beta iota zeta;
   destruct (r_pc s) eqn:Hpc;
   split_matches.
 
 Ltac step_split s e HI :=
   unfold step, step_with;
   destruct e as [[|?k]|?i];
-  [ ring_split s | fut_split s k HI | cbv beta iota zeta; unfold kcomplete; split_matches ];
+  [ ring_split s | fut_split s k HI | cbv beta iota zeta ];
   expose_frames; ssimpl.
 
 (** Programs only shrink. *)
@@ -307,12 +451,14 @@ Lemma drop_alive s k i r : Inv s -> f_prog (thr s k) = DropOp i :: r ->
   o_alloc (ops s i) = true /\ o_st (ops s i) <> Dropped.
 Proof. intros HI Hp. apply (uses_alive s k i HI). rewrite Hp. apply uses_hd. cbn. apply Nat.eqb_refl. Qed.
 
-(** A completion of operation [i] waiting in the queue: the box is allocated, the operation running or dropped. *)
-Lemma cop_alive s i q : Inv s -> cq s = COp i :: q ->
+(** A completion of operation [i] waiting in the queue (final or not): the box is allocated, the
+    operation running or dropped. *)
+Lemma cop_alive s i c q : Inv s -> cq s = COp i c :: q ->
   o_alloc (ops s i) = true /\ live (o_st (ops s i)) = true.
 Proof.
-  intros HI Hq. pose proof (inv_tk _ HI i) as Ht. unfold tokens in Ht. rewrite Hq, cnt_cons in Ht.
-  cbn [is_cop] in Ht. rewrite Nat.eqb_refl in Ht.
+  intros HI Hq. pose proof (inv_tk _ HI i) as Ht. pose proof (inv_cov _ HI i) as Hc. unfold tokens in Ht.
+  rewrite Hq in Hc. destruct Hc as [Hc _]. cbn [is_cop] in Hc. rewrite Nat.eqb_refl in Hc. specialize (Hc eq_refl).
+  rewrite <- Hq in Hc.
   destruct (o_alloc (ops s i)); destruct (live (o_st (ops s i))); cbn [andb] in Ht; try lia; auto.
 Qed.
 
@@ -321,14 +467,18 @@ Inductive op_trans (o : op) : op -> Prop :=
   | ot_same : op_trans o o
   | ot_lock t : o_holder o = None -> o_alloc o = true -> o_st o <> Dropped -> op_trans o (o_lock o t)
   | ot_unlock : o_st o = NotStarted -> op_trans o (o_unlock o)
-  | ot_repoll w : o_st o = Running -> o_alloc o = true -> op_trans o (o_repoll o w)
+  | ot_repoll w : o_st o = Running -> o_alloc o = true -> (o_kind o = Multi -> o_q o = []) -> op_trans o (o_repoll o w)
   | ot_submitted w : o_st o = NotStarted -> o_alloc o = true -> op_trans o (o_submitted o w)
-  | ot_ready : o_st o = Done -> op_trans o (o_ready o)
+  | ot_ready : o_kind o <> Multi -> o_st o = Done -> op_trans o (o_ready o)
+  | ot_item v q' : o_kind o = Multi -> o_st o = Running \/ o_st o = Done -> o_q o = v :: q' -> op_trans o (o_item o v q')
+  | ot_end : o_kind o = Multi -> o_st o = Done -> o_q o = [] -> op_trans o (o_end o)
   | ot_parked w : o_st o = NotStarted -> op_trans o (o_parked o w)
   | ot_dropped b : o_st o = Running -> op_trans o (o_dropped o b)
   | ot_free_drop : o_alloc o = true -> o_st o <> Running -> o_st o <> Dropped -> op_trans o (o_free o)
-  | ot_free_disp : o_alloc o = true -> o_st o = Dropped -> op_trans o (o_free o)
-  | ot_completed : o_st o = Running -> o_alloc o = true -> op_trans o (o_completed o).
+  | ot_free_disp c : o_alloc o = true -> o_st o = Dropped -> c_more c = false -> op_trans o (o_free (o_seen o c))
+  | ot_seen c : o_alloc o = true -> o_st o = Dropped -> c_more c = true -> op_trans o (o_seen o c)
+  | ot_accept c wk : o_st o = Running -> o_alloc o = true -> wk = negb (c_more c) || is_multi (o_kind o) ->
+      op_trans o (o_accept o c wk).
 
 Ltac alive_facts s HI :=
   try match goal with
@@ -338,8 +488,8 @@ Ltac alive_facts s HI :=
       let Ha := fresh "Halive" in let Hd := fresh "Hnd" in destruct (drop_alive s k i r HI Hp) as [Ha Hd]
   end;
   try match goal with
-  | Hq : cq s = COp ?i :: ?q |- _ =>
-      let Ha := fresh "Halive" in let Hl := fresh "Hlive" in destruct (cop_alive s i q HI Hq) as [Ha Hl]
+  | Hq : cq s = COp ?i ?c :: ?q |- _ =>
+      let Ha := fresh "Halive" in let Hl := fresh "Hlive" in destruct (cop_alive s i c q HI Hq) as [Ha Hl]
   end.
 
 Lemma step_op_trans s e : Inv s -> forall j, op_trans (ops s j) (ops (fst (step s e)) j).
@@ -349,32 +499,117 @@ Proof.
     try (updcase j i; [|apply ot_same]);
     try match goal with H : o_st (ops s ?i) = _ |- _ => rewrite H in *; cbn [live] in * end;
     try discriminate;
-    try (solve [constructor; (assumption || congruence || discriminate)]).
+    try (solve [constructor; (assumption || congruence || discriminate || (left; assumption) || (right; assumption))]);
+    try (solve [apply ot_accept; try assumption; try reflexivity;
+                repeat match goal with H : c_more _ = _ |- _ => rewrite H | H : o_kind _ = _ |- _ => rewrite H end; reflexivity]).
 Qed.
 
 (** ** The clauses about a single operation follow from the transition table. *)
 Ltac ot_cases H := inversion H; subst; clear H; ssimpl.
 
-Lemma step_A s e : Inv s -> P_A (fst (step s e)).
-Proof.
-  intros HI j. pose proof (step_op_trans s e HI j) as Hot. pose proof (inv_A _ HI j) as HA.
-  revert Hot HA. generalize (ops s j) (ops (fst (step s e)) j). intros o o' Hot HA.
-  inversion Hot; subst; ssimpl; intros; try discriminate; try congruence; auto.
-Qed.
-
 Lemma waker_eqb_refl w : waker_eqb (Some w) (Some w) = true.
 Proof. cbn. apply N.eqb_refl. Qed.
+
+Lemma step_A s e : Inv s -> P_A (fst (step s e)).
+Proof.
+  intros HI j w. pose proof (step_op_trans s e HI j) as Hot. pose proof (inv_A _ HI j w) as HA.
+  revert Hot HA. generalize (ops s j) (ops (fst (step s e)) j). intros o o' Hot HA.
+  inversion Hot; subst; ssimpl; intros Hst Hl Hw; try discriminate; try congruence;
+    try (apply HA; assumption).
+  - (* re-poll *) injection Hl as <-. split; [reflexivity|assumption].
+  - (* submitted *) injection Hl as <-. split; reflexivity.
+  - (* a completion is dispatched *)
+    destruct (c_more c) eqn:Hm; [|discriminate]. cbn [negb orb] in *.
+    destruct (is_multi (o_kind o)) eqn:Hk.
+    + exfalso. apply orb_false_elim in Hw. destruct Hw as [Hw1 Hw2].
+      destruct (HA Hst Hl Hw1) as [HA1 _]. rewrite HA1, Hl, waker_eqb_refl in Hw2. discriminate.
+    + destruct (HA Hst Hl Hw) as [HA1 _]. split; [exact HA1|].
+      intros Hk'. rewrite Hk' in Hk. discriminate.
+Qed.
 
 Lemma step_B s e : Inv s -> P_B (fst (step s e)).
 Proof.
   intros HI j w. pose proof (step_op_trans s e HI j) as Hot.
-  pose proof (inv_A _ HI j) as HA. pose proof (inv_B _ HI j) as HB.
+  pose proof (inv_A _ HI j w) as HA. pose proof (inv_B _ HI j w) as HB.
   revert Hot HA HB. generalize (ops s j) (ops (fst (step s e)) j). intros o o' Hot HA HB.
-  inversion Hot; subst; ssimpl; intros; try discriminate; try congruence; eauto.
-  (* the completion is dispatched: the registered waker is the latest one *)
-  match goal with H : g_lastw o = Some w |- _ => rewrite (HA ltac:(assumption)), H end.
-  rewrite waker_eqb_refl. apply orb_true_r.
+  inversion Hot; subst; ssimpl; intros Hst Hl; try discriminate; try congruence; eauto.
+  (* a completion is dispatched: if final, the registered waker is the latest one *)
+  destruct (c_more c) eqn:Hm; [congruence|]. cbn [negb orb].
+  destruct (g_woken o) eqn:Hw; [reflexivity|]. cbn [orb].
+  match goal with H : o_st o = Running |- _ => destruct (HA H Hl eq_refl) as [HA1 _] end.
+  rewrite HA1, Hl. apply waker_eqb_refl.
 Qed.
+
+Lemma has_final_app l c : has_final (l ++ [c]) = has_final l || negb (c_more c).
+Proof. unfold has_final. rewrite existsb_app. cbn [existsb]. rewrite orb_false_r. reflexivity. Qed.
+Lemma last_res_app l c : last_res (l ++ [c]) = if c_notif c then last_res l else c_res c.
+Proof. unfold last_res. rewrite fold_left_app. reflexivity. Qed.
+
+Lemma ledger_step o o' : op_trans o o' -> ledger_ok o -> ledger_ok o'.
+Proof.
+  intros Hot [L1 [L2 L3]]. unfold ledger_ok.
+  inversion Hot; subst; ssimpl; try (split; [exact L1|split; [exact L2|exact L3]]).
+  - (* submitted *)
+    destruct (L1 ltac:(assumption)) as [Hd Ho]. rewrite Hd, Ho.
+    split; [intros; discriminate|]. split; [intros [?|?]; discriminate|].
+    destruct (o_kind o); cbn [map app last_res fold_left].
+    all: repeat split; intros; try discriminate; try reflexivity; try (exists []; reflexivity).
+  - (* ready *)
+    split; [intros; discriminate|]. split; [intros _; apply L2; left; assumption|].
+    destruct (o_kind o); [|congruence|].
+    all: destruct L3 as [L3 _]; destruct (L3 ltac:(right; assumption)) as [Hr Ho]; rewrite Ho, Hr.
+    all: repeat split; intros; try discriminate; try (destruct H1; congruence); try congruence; reflexivity.
+  - (* item *)
+    match goal with H : o_kind o = Multi |- _ => rewrite H in * end.
+    destruct L3 as [_ [L3 _]]. specialize (L3 ltac:(assumption)).
+    match goal with H : o_q o = _ |- _ => rewrite H in L3 end.
+    split; [intros Hn; destruct H0; congruence|]. split; [exact L2|].
+    split; [exists q'; rewrite <- app_assoc; exact L3|].
+    split; [intros _; rewrite <- app_assoc; exact L3|].
+    intros Hc. destruct H0; congruence.
+  - (* end *)
+    match goal with H : o_kind o = Multi |- _ => rewrite H in * end.
+    destruct L3 as [_ [L3 _]]. specialize (L3 ltac:(right; assumption)).
+    match goal with H : o_q o = _ |- _ => rewrite H, app_nil_r in L3 end.
+    split; [intros; discriminate|]. split; [intros _; apply L2; left; assumption|].
+    split; [exists []; rewrite app_nil_r; exact L3|]. split; [intros [?|?]; discriminate|]. intros _. exact L3.
+  - (* dropped *)
+    split; [intros; discriminate|]. split; [intros [?|?]; discriminate|].
+    destruct (o_kind o).
+    + destruct L3 as [L3 _]. destruct (L3 ltac:(left; assumption)) as [_ Ho].
+      repeat split; intros; try discriminate; try (destruct H0; discriminate); exact Ho.
+    + destruct L3 as [L3 _]. split; [exact L3|]. split; [intros [?|?]; discriminate|intros; discriminate].
+    + destruct L3 as [L3 _]. destruct (L3 ltac:(left; assumption)) as [_ Ho].
+      repeat split; intros; try discriminate; try (destruct H0; discriminate); exact Ho.
+  - (* dispatch frees a dropped operation *)
+    split; [intros; congruence|]. split; [intros [?|?]; congruence|].
+    destruct (o_kind o).
+    + destruct L3 as [_ [_ L3]]. repeat split; intros; try congruence; try (destruct H2; congruence); auto.
+    + destruct L3 as [[rest L3] _]. split; [|split; [intros [?|?]; congruence|intros; congruence]].
+      exists (rest ++ [c_res c]). rewrite map_app, L3, app_assoc. reflexivity.
+    + destruct L3 as [_ [_ L3]]. repeat split; intros; try congruence; try (destruct H2; congruence); auto.
+  - (* a completion with F_MORE of a dropped operation *)
+    split; [intros; congruence|]. split; [intros [?|?]; congruence|].
+    destruct (o_kind o).
+    + destruct L3 as [_ [_ L3]]. repeat split; intros; try congruence; try (destruct H2; congruence); auto.
+    + destruct L3 as [[rest L3] _]. split; [|split; [intros [?|?]; congruence|intros; congruence]].
+      exists (rest ++ [c_res c]). rewrite map_app, L3, app_assoc. reflexivity.
+    + destruct L3 as [_ [_ L3]]. repeat split; intros; try congruence; try (destruct H2; congruence); auto.
+  - (* a completion is accepted *)
+    rewrite has_final_app, last_res_app, map_app. cbn [map].
+    split; [destruct (c_more c); intros; congruence|].
+    split; [destruct (c_more c); [intros [?|?]; congruence|intros _; apply orb_true_r]|].
+    unfold store_res, push_res. destruct (o_kind o).
+    + destruct L3 as [L3 _]. destruct (L3 ltac:(left; assumption)) as [Hr Ho]. rewrite Ho, Hr.
+      split; [intros _; split; reflexivity|]. split; destruct (c_more c); intros; congruence.
+    + destruct L3 as [_ [L3 _]]. specialize (L3 ltac:(left; assumption)). rewrite L3, <- app_assoc.
+      split; [eexists; reflexivity|]. split; [intros _; reflexivity|]. destruct (c_more c); intros; congruence.
+    + destruct L3 as [L3 _]. destruct (L3 ltac:(left; assumption)) as [Hr Ho]. rewrite Ho, Hr.
+      split; [intros _; split; reflexivity|]. split; destruct (c_more c); intros; congruence.
+Qed.
+
+Lemma step_L s e : Inv s -> P_L (fst (step s e)).
+Proof. intros HI j. apply (ledger_step (ops s j)); [apply step_op_trans; exact HI|apply (inv_L _ HI)]. Qed.
 
 Lemma step_F s e : Inv s -> P_F (fst (step s e)).
 Proof.
@@ -470,6 +705,7 @@ Proof.
   intros HI j. unfold gone.
   step_split s e HI; intros Hg; try (left; exact Hg);
     try (updcase j i; [|left; exact Hg]); ssimpl;
+    repeat match goal with H : c_more _ = _ |- _ => rewrite H in Hg end;
     try (left; destruct Hg as [Hg|Hg]; [left; exact Hg|right; first [exact Hg|congruence]]);
     try (left; right; assumption);
     try (right; exists k, r; split; [assumption|rewrite Nat.eqb_refl; ssimpl; rewrite Hprog; reflexivity]).
@@ -585,13 +821,25 @@ Proof.
     try match goal with Hm : mem ?i0 (inflight s) = true |- _ =>
           destruct (Nat.eq_dec j i0) as [->|Hji];
           [pose proof (cnt_remove_same i0 _ Hm)|rewrite (cnt_remove_other j i0) by exact Hji] end;
-    rewrite ?cnt_app, ?cnt_cons, ?cnt_nil in *; cbn [is_submit is_cop] in *;
+    rewrite ?cnt_app, ?cnt_cons, ?cnt_nil in *; cbn [is_submit is_cop is_fin fin auto_cqe c_more] in *;
     try (updcase j i); ssimpl; eqb_norm;
     repeat match goal with
     | H : o_st (ops s _) = _ |- _ => rewrite H in *
     | H : o_alloc (ops s _) = _ |- _ => rewrite H in *
+    | H : c_more _ = _ |- _ => rewrite H in *
     end;
-    cbn [live andb] in *; try discriminate; try congruence; try lia.
+    cbn [live andb negb] in *; try discriminate; try congruence; try lia.
+Qed.
+
+Lemma step_cov s e : Inv s -> P_cov (fst (step s e)).
+Proof.
+  intros HI.
+  step_split s e HI; unfold P_cov; intros j; ssimpl; pose proof (inv_cov _ HI j) as Hc;
+    try exact Hc;
+    try (apply Hadvcov; exact Hc);
+    try match goal with H : cq s = _ |- _ => rewrite H in Hc end;
+    try (apply Hadvcov; first [exact Hc | exact (covered_tl _ _ _ _ Hc)]);
+    try (apply Hkcov; exact Hc).
 Qed.
 
 (** * The invariant holds in every reachable state *)
@@ -604,6 +852,8 @@ Proof.
   - apply step_thr; exact HI.
   - apply step_A; exact HI.
   - apply step_B; exact HI.
+  - apply step_L; exact HI.
+  - apply step_cov; exact HI.
   - apply step_tk; exact HI.
   - apply step_F; exact HI.
   - apply step_C; exact HI.
@@ -614,8 +864,8 @@ Proof.
   - apply step_park; exact HI.
 Qed.
 
-Lemma reachable_inv cap0 auto0 canc npolls progs es : progs_ok progs ->
-  Inv (fst (run step (init cap0 auto0 canc npolls progs) es)).
+Lemma reachable_inv cap0 auto0 kinds canc scr npolls progs es : progs_ok progs ->
+  Inv (fst (run step (init cap0 auto0 kinds canc scr npolls progs) es)).
 Proof. intros Hp. apply run_invariant; [exact step_inv|apply init_inv; exact Hp]. Qed.
 
 (** * Statements *)
@@ -629,7 +879,7 @@ Ltac step_split0 s e :=
     destruct (f_pc (thr s k)) eqn:Hpc;
     destruct (f_prog (thr s k)) as [|[?i ?w|?i|] ?r] eqn:Hprog;
     split_matches
-  | cbv beta iota zeta; unfold kcomplete; split_matches ];
+  | cbv beta iota zeta ];
   expose_frames; ssimpl.
 
 Definition parked_of (out : list obs) : list N :=
@@ -655,50 +905,86 @@ Definition is_cancel (i : nat) (e : sqe) : bool := match e with Cancel j => Nat.
     of [i] returned Pending with waker [w] and the readying completion has been dispatched, [w]
     — the LATEST waker, also when polls replaced it — has been invoked since that poll. *)
 Definition race_readying_completion_wakes_latest_waker : Prop :=
-  (forall cap0 auto0 canc npolls progs es, progs_ok progs ->
-     let s := fst (run step (init cap0 auto0 canc npolls progs) es) in
+  (forall cap0 auto0 kinds canc scr npolls progs es, progs_ok progs ->
+     let s := fst (run step (init cap0 auto0 kinds canc scr npolls progs) es) in
      forall i w, g_lastw (ops s i) = Some w -> o_st (ops s i) = Done -> g_woken (ops s i) = true)
+  (* MULTISHOT: any dispatched completion readies the stream: a result is queued (the poll that
+     returned Pending found the queue empty, under the same mutex) => the latest waker was woken;
+     and while the latest waker of a running operation of ANY kind has not been woken it is the
+     stored one -- a two-step operation keeps it across its result completion (F_MORE), which
+     wakes nobody; its final completion is covered by the first clause *)
+  /\ (forall cap0 auto0 kinds canc scr npolls progs es, progs_ok progs ->
+     let s := fst (run step (init cap0 auto0 kinds canc scr npolls progs) es) in
+     forall i w, g_lastw (ops s i) = Some w -> o_st (ops s i) = Running ->
+       (o_kind (ops s i) = Multi -> o_q (ops s i) <> [] -> g_woken (ops s i) = true)
+       /\ (g_woken (ops s i) = false -> o_waker (ops s i) = Some w))
   (* (G1) a poll that returns Pending (either way) records its waker, not yet woken *)
   /\ (forall s e i w, In (OPending i w) (snd (step s e)) \/ In (OParked i w) (snd (step s e)) ->
         g_lastw (ops (fst (step s e)) i) = Some w /\ g_woken (ops (fst (step s e)) i) = false)
-  (* (G2) nothing else changes it, except a poll returning Ready *)
+  (* (G2) nothing else changes it, except a poll returning Ready (a result, a stream item, the end of the stream) *)
   /\ (forall s e i, g_lastw (ops (fst (step s e)) i) <> g_lastw (ops s i) ->
         (exists w, In (OPending i w) (snd (step s e)) \/ In (OParked i w) (snd (step s e)))
-        \/ In (OReady i) (snd (step s e)))
+        \/ (exists v, In (OReady i v) (snd (step s e))) \/ In (OEnd i) (snd (step s e)))
   (* (G3) [g_woken] is set only by a step of the ring thread that invokes exactly that waker *)
   /\ (forall s e i, g_woken (ops s i) = false -> g_woken (ops (fst (step s e)) i) = true ->
         e = T 0 /\ exists w, g_lastw (ops s i) = Some w /\ In (OWake w) (snd (step s e)))
-  (* (G4) the status becomes Done only in the ring thread's dispatch step, which leaves the mutex free *)
+  (* (G4) the status becomes Done only in the ring thread's dispatch step of a completion of that
+     operation WITHOUT F_MORE, which leaves the mutex free *)
   /\ (forall s e i, o_st (ops s i) <> Done -> o_st (ops (fst (step s e)) i) = Done ->
-        e = T 0 /\ (r_pc s = RDisp \/ r_pc s = RDispSpin) /\ o_holder (ops (fst (step s e)) i) = None).
+        e = T 0 /\ (r_pc s = RDisp \/ r_pc s = RDispSpin) /\ o_holder (ops (fst (step s e)) i) = None
+        /\ exists c q, cq s = COp i c :: q /\ c_more c = false)
+  (* (G5) the dispatch step, any state: a completion of a running operation that is final, or any
+     completion of a multishot one, takes the stored waker and wakes it; a completion with F_MORE
+     of a single-shot / two-step operation wakes nobody and leaves the stored waker in place *)
+  /\ (forall s i c q n, (r_pc s = RDisp \/ r_pc s = RDispSpin) -> r_n s = S n -> cq s = COp i c :: q ->
+        o_holder (ops s i) = None -> o_st (ops s i) = Running ->
+        if negb (c_more c) || is_multi (o_kind (ops s i))
+        then snd (step s (T 0)) = wake_obs (ops s i) /\ o_waker (ops (fst (step s (T 0))) i) = None
+        else snd (step s (T 0)) = [] /\ o_waker (ops (fst (step s (T 0))) i) = o_waker (ops s i)).
+
+Lemma In_wake_obs o x : In x (wake_obs o) -> exists w, x = OWake w.
+Proof. unfold wake_obs. destruct (o_waker o); cbn [In]; [intros [H|[]]|intros []]. eexists; symmetry; exact H. Qed.
 
 Lemma race_readying_completion_wakes_latest_waker_holds : race_readying_completion_wakes_latest_waker.
 Proof.
-  split; [|split; [|split; [|split]]].
-  - intros cap0 auto0 canc npolls progs es Hp s i w Hl Hd.
-    exact (inv_B _ (reachable_inv cap0 auto0 canc npolls progs es Hp) i w Hd Hl).
+  split; [|split; [|split; [|split; [|split; [|split]]]]].
+  - intros cap0 auto0 kinds canc scr npolls progs es Hp s i w Hl Hd.
+    exact (inv_B _ (reachable_inv cap0 auto0 kinds canc scr npolls progs es Hp) i w Hd Hl).
+  - intros cap0 auto0 kinds canc scr npolls progs es Hp s i w Hl Hr.
+    pose proof (inv_A _ (reachable_inv cap0 auto0 kinds canc scr npolls progs es Hp) i w Hr Hl) as HA. fold s in HA.
+    split.
+    + intros Hk Hq. destruct (g_woken (ops s i)); [reflexivity|]. destruct (HA eq_refl) as [_ HA2].
+      destruct (Hq (HA2 Hk)).
+    + intros Hw. exact (proj1 (HA Hw)).
   - intros s e i w. step_split0 s e; intros [H|H]; cbn [In] in H;
       repeat (destruct H as [H|H]; try discriminate); try contradiction;
       try (apply in_map_iff in H; destruct H as [? [? ?]]; discriminate);
+      try (apply In_wake_obs in H; destruct H as [? H]; discriminate);
       injection H as <- <-; rewrite upd_same; ssimpl; auto.
   - intros s e i0. step_split0 s e; intros H; try (exfalso; apply H; reflexivity);
       try (updcase i0 i; [|exfalso; apply H; reflexivity]); ssimpl;
       try (exfalso; apply H; reflexivity);
       try (left; eexists; left; left; reflexivity);
       try (left; eexists; right; left; reflexivity);
-      try (right; left; reflexivity).
+      try (right; left; eexists; left; reflexivity);
+      try (right; right; left; reflexivity).
   - intros s e i0. step_split0 s e; intros H0 H1; try congruence;
       try (updcase i0 i; [|congruence]); ssimpl; try congruence.
-    all: try (match goal with Hw : o_waker (ops ?s0 ?i1) = Some ?n |- _ =>
-        split; [reflexivity|];
-        rewrite H0 in H1; cbn [orb] in H1; unfold waker_eqb in H1; rewrite Hw in H1;
-        destruct (g_lastw (ops s0 i1)) as [lw|]; [|discriminate];
-        apply N.eqb_eq in H1; subst; eexists; split; [reflexivity|left; reflexivity] end).
-    all: rewrite H0 in H1; match goal with Hw : o_waker _ = None |- _ => rewrite Hw in H1 end; discriminate.
+    all: unfold wake_obs; split; [reflexivity|];
+        rewrite H0 in H1; cbn [orb] in H1; unfold waker_eqb in H1;
+        destruct (o_waker (ops s i)) as [wk|]; [|discriminate];
+        destruct (g_lastw (ops s i)) as [lw|]; [|discriminate];
+        apply N.eqb_eq in H1; subst; eexists; split; [reflexivity|left; reflexivity].
   - intros s e i0. step_split0 s e; intros H0 H1; try congruence;
-      try (updcase i0 i; [|congruence]); ssimpl; try congruence; try discriminate.
+      try (updcase i0 i; [|congruence]); ssimpl; try congruence; try discriminate;
+      repeat match goal with H : c_more _ = _ |- _ => rewrite H in * end; try congruence.
     all: split; [reflexivity|split; [rewrite ?Hpc; auto|]].
-    all: rewrite ?Nat.eqb_refl; ssimpl; try assumption; try reflexivity.
+    all: rewrite ?Nat.eqb_refl; ssimpl; split; [try assumption; try reflexivity|eexists _, _; split; [reflexivity|assumption]].
+  - intros s i c q n Hpc Hn Hq Hh Hr. unfold step, step_with, rstep_with, rstep_gen, dispatch_with, o_update.
+    destruct Hpc as [Hpc|Hpc]; rewrite Hpc, Hn, Hq, Hh, Hr; cbv beta iota zeta.
+    all: destruct (c_more c) eqn:Hm; destruct (o_kind (ops s i)) eqn:Hk; cbn [negb orb is_multi].
+    all: match goal with |- context [advance ?x] => destruct (advance_eq x) as [q0 [n0 [p0 [E _]]]]; rewrite E end.
+    all: ssimpl; rewrite upd_same; ssimpl; split; reflexivity.
 Qed.
 
 Lemma bwoken_of_wakes l : bwoken_of (map OWakeB l) = l.
@@ -709,6 +995,10 @@ Lemma bwoken_of_consumed l : bwoken_of (map OConsumed l) = [].
 Proof. induction l as [|x l IH]; [reflexivity|]. exact IH. Qed.
 Lemma parked_of_consumed l : parked_of (map OConsumed l) = [].
 Proof. induction l as [|x l IH]; [reflexivity|]. exact IH. Qed.
+Lemma bwoken_of_wake_obs o : bwoken_of (wake_obs o) = [].
+Proof. unfold wake_obs. destruct (o_waker o); reflexivity. Qed.
+Lemma parked_of_wake_obs o : parked_of (wake_obs o) = [].
+Proof. unfold wake_obs. destruct (o_waker o); reflexivity. Qed.
 
 (** ** C03, queue full: parked wakers under interleaving.
 
@@ -733,8 +1023,8 @@ Definition race_parked_waker_is_woken : Prop :=
   (forall s e i w, In (OParked i w) (snd (step s e)) -> blocked (fst (step s e)) = blocked s ++ [w])
   /\ (forall s e, g_parked (fst (step s e)) = g_parked s ++ parked_of (snd (step s e))
                /\ g_bwoken (fst (step s e)) = g_bwoken s ++ bwoken_of (snd (step s e)))
-  /\ (forall cap0 auto0 canc npolls progs es, progs_ok progs ->
-       let s := fst (run step (init cap0 auto0 canc npolls progs) es) in
+  /\ (forall cap0 auto0 kinds canc scr npolls progs es, progs_ok progs ->
+       let s := fst (run step (init cap0 auto0 kinds canc scr npolls progs) es) in
        Permutation (g_parked s) (g_bwoken s ++ blocked s ++ r_rest s)
        /\ (r_pc s <> RWbLock -> r_rest s = [])
        /\ (r_pc s = RWbTry ->
@@ -752,27 +1042,29 @@ Proof.
   split; [|split].
   - intros s e i w. step_split0 s e; intros H; cbn [In] in H;
       repeat (destruct H as [H|H]; try discriminate); try contradiction;
-      try (apply in_map_iff in H; destruct H as [? [? ?]]; discriminate).
+      try (apply in_map_iff in H; destruct H as [? [? ?]]; discriminate);
+      try (apply In_wake_obs in H; destruct H as [? H]; discriminate).
     injection H as <- <-. reflexivity.
   - intros s e.
     step_split0 s e;
-      rewrite ?bwoken_of_wakes, ?parked_of_wakes, ?bwoken_of_consumed, ?parked_of_consumed;
+      rewrite ?bwoken_of_wakes, ?parked_of_wakes, ?bwoken_of_consumed, ?parked_of_consumed,
+        ?bwoken_of_wake_obs, ?parked_of_wake_obs;
       cbn [parked_of bwoken_of flat_map app]; rewrite ?app_nil_r; split; reflexivity.
-  - intros cap0 auto0 canc npolls progs es Hp s.
-    pose proof (reachable_inv cap0 auto0 canc npolls progs es Hp) as HI. fold s in HI.
+  - intros cap0 auto0 kinds canc scr npolls progs es Hp s.
+    pose proof (reachable_inv cap0 auto0 kinds canc scr npolls progs es Hp) as HI. fold s in HI.
     pose proof (inv_wb _ HI) as [Hw1 [Hw2 Hw3]]. pose proof (inv_sq _ HI) as [Hle Hlen].
     split; [exact (inv_park _ HI)|]. split; [exact Hw3|].
     split; [|split; [|split]].
     + intros Hpc. destruct (Hw2 Hpc) as [Ha Hb]. cbv zeta.
       assert (Hout : snd (step s (T 0)) = map OWakeB (firstn (Nat.min (r_avail s) (length (blocked s))) (blocked s))).
-      { unfold step, step_with, rstep_with. rewrite Hpc.
+      { unfold step, step_with, rstep_with, rstep_gen. rewrite Hpc.
         destruct (blocked s) as [|x l]; [cbn [snd]; rewrite firstn_nil; reflexivity|reflexivity]. }
       split; [exact Hout|]. split; [exact Ha|]. split; [exact Hb|].
       intros w r Hbl. rewrite Hout, Hbl. cbn [length].
       destruct (r_avail s) as [|a]; [lia|]. cbn [Nat.min firstn map In]. left; reflexivity.
-    + intros Hpc. unfold step, step_with, rstep_with. rewrite Hpc. split; reflexivity.
-    + intros Hpc. unfold step, step_with, rstep_with. rewrite Hpc. reflexivity.
-    + intros Hpc Hroom. unfold step, step_with, rstep_with. rewrite Hpc. rewrite (Hw1 Hpc).
+    + intros Hpc. unfold step, step_with, rstep_with, rstep_gen. rewrite Hpc. split; reflexivity.
+    + intros Hpc. unfold step, step_with, rstep_with, rstep_gen. rewrite Hpc. reflexivity.
+    + intros Hpc Hroom. unfold step, step_with, rstep_with, rstep_gen. rewrite Hpc. rewrite (Hw1 Hpc).
       destruct (Nat.eqb_spec (N.to_nat (cap s - (sqt s - sqh s))) 0) as [Hz|Hz]; [lia|reflexivity].
 Qed.
 
@@ -780,30 +1072,38 @@ Lemma frees_of_wakes i l : frees_of i (map OWakeB l) = 0.
 Proof. induction l as [|x l IH]; [reflexivity|]. exact IH. Qed.
 Lemma frees_of_consumed i l : frees_of i (map OConsumed l) = 0.
 Proof. induction l as [|x l IH]; [reflexivity|]. exact IH. Qed.
+Lemma frees_of_wake_obs i o : frees_of i (wake_obs o) = 0.
+Proof. unfold wake_obs. destruct (o_waker o); reflexivity. Qed.
 
 (** ** C06 (and C01) under the poll / drop versus dispatch race.
 
-    Every reachable state, any interleaving (programs obeying [progs_ok]):
+    Every reachable state, any interleaving (programs obeying [progs_ok]), ALL KINDS and scripts:
     (a) the state box of an operation is freed at most once ([g_frees] counts the [OFree]
     observations, clause (F)), and it is freed iff it is no longer allocated;
     (b) no step ever takes the mutex inside a freed box ([g_bad], clause (U)): neither a future
     call nor the ring thread's dispatch touches a state after its free;
-    (c) what the kernel owes an operation (submission queued, request in flight, completion posted
-    and not processed) is exactly one item while the operation is Running or Dropped-and-allocated
-    and nothing otherwise: a dropped running operation is not freed before its final completion
-    is dispatched, is never orphaned, and once freed nothing of it is left anywhere;
-    (d) the ring thread's dispatch of the completion of a Dropped operation frees it in that step;
+    (c) what the kernel owes an operation before it is done with it (submission queued, request in
+    flight, FINAL completion posted and not processed -- completions with F_MORE do not count) is
+    exactly one item while the operation is Running or Dropped-and-allocated and nothing
+    otherwise: a dropped running operation is not freed before its FINAL completion is dispatched
+    (a multishot stream, a two-step send whose result arrived and whose notification is
+    outstanding), is never orphaned, and once freed nothing of it is left anywhere -- not even a
+    completion with F_MORE ([ents]);
+    (d) the ring thread's dispatch of a completion WITHOUT F_MORE of a Dropped operation frees it in
+    that step; (d') of a completion WITH F_MORE frees nothing and leaves the box allocated;
     a [DropOp] call on an operation that is not Running frees it at once and queues nothing;
+    (F2) these are the only steps that free anything;
     (e) at most one cancel request per operation, only for an operation that is Dropped (a
     never-started or finished one gets none), and every queued cancel names a Dropped operation. *)
 Definition race_state_reclaimed_exactly_once : Prop :=
-  (forall cap0 auto0 canc npolls progs es, progs_ok progs ->
-     let s := fst (run step (init cap0 auto0 canc npolls progs) es) in
+  (forall cap0 auto0 kinds canc scr npolls progs es, progs_ok progs ->
+     let s := fst (run step (init cap0 auto0 kinds canc scr npolls progs) es) in
      (forall i, g_frees (ops s i) <= 1 /\ (g_frees (ops s i) = 1 <-> o_alloc (ops s i) = false))
      /\ g_bad s = false
      /\ (forall i, tokens s i = if o_alloc (ops s i) && live (o_st (ops s i)) then 1 else 0)
      /\ (forall i, o_st (ops s i) = Dropped ->
-           (o_alloc (ops s i) = true /\ tokens s i = 1) \/ (o_alloc (ops s i) = false /\ tokens s i = 0 /\ g_frees (ops s i) = 1))
+           (o_alloc (ops s i) = true /\ tokens s i = 1)
+           \/ (o_alloc (ops s i) = false /\ tokens s i = 0 /\ g_frees (ops s i) = 1 /\ ents i (cq s) = []))
      /\ (forall i, g_cancels (ops s i) <= 1 /\ (g_cancels (ops s i) = 1 -> o_st (ops s i) = Dropped))
      /\ (forall i, In (Cancel i) (sq s) -> o_st (ops s i) = Dropped))
   (* (F) the ledger of frees *)
@@ -811,51 +1111,204 @@ Definition race_state_reclaimed_exactly_once : Prop :=
   (* (U) what sets [g_bad] *)
   /\ (forall s e, g_bad s = false -> g_bad (fst (step s e)) = true ->
         exists i, o_alloc (ops s i) = false /\ o_holder (ops s i) = None
-                  /\ ((e = T 0 /\ exists q, cq s = COp i :: q)
+                  /\ ((e = T 0 /\ exists c q, cq s = COp i c :: q)
                       \/ exists k, e = T (S k) /\ exists c r, f_prog (thr s k) = c :: r /\ mentions i c = true))
-  (* (d) *)
-  /\ (forall s i q n, (r_pc s = RDisp \/ r_pc s = RDispSpin) -> r_n s = S n -> cq s = COp i :: q ->
+  (* (d), (d') *)
+  /\ (forall s i c q n, (r_pc s = RDisp \/ r_pc s = RDispSpin) -> r_n s = S n -> cq s = COp i c :: q ->
         o_holder (ops s i) = None -> o_st (ops s i) = Dropped ->
-        snd (step s (T 0)) = [OFree i (o_started (ops s i))] /\ o_alloc (ops (fst (step s (T 0))) i) = false)
+        if c_more c
+        then snd (step s (T 0)) = [] /\ o_alloc (ops (fst (step s (T 0))) i) = o_alloc (ops s i)
+             /\ o_st (ops (fst (step s (T 0))) i) = Dropped
+        else snd (step s (T 0)) = [OFree i (o_started (ops s i))] /\ o_alloc (ops (fst (step s (T 0))) i) = false)
   /\ (forall s k i r, (f_pc (thr s k) = FStart \/ f_pc (thr s k) = FSpin) -> f_prog (thr s k) = DropOp i :: r ->
         o_holder (ops s i) = None -> o_st (ops s i) <> Running ->
         snd (step s (T (S k))) = [OFree i (o_started (ops s i))] /\ sq (fst (step s (T (S k)))) = sq s
         /\ o_alloc (ops (fst (step s (T (S k)))) i) = false)
+  (* (F2) nothing else frees a state *)
+  /\ (forall s e i, 1 <= frees_of i (snd (step s e)) ->
+        (e = T 0 /\ o_st (ops s i) = Dropped /\ exists c q, cq s = COp i c :: q /\ c_more c = false)
+        \/ (exists k r, e = T (S k) /\ f_prog (thr s k) = DropOp i :: r /\ o_st (ops s i) <> Running))
   (* the ledger of cancel requests: one more exactly when [Cancel i] is appended to the queue *)
   /\ (forall s e i, g_cancels (ops (fst (step s e)) i) = g_cancels (ops s i)
                     \/ (g_cancels (ops (fst (step s e)) i) = S (g_cancels (ops s i))
                         /\ sq (fst (step s e)) = sq s ++ [Cancel i])).
 
+(** No token, no completion of that operation in the queue (final or not). *)
+Lemma no_token_no_entry i n q : covered i n q -> n + cnt (is_fin i) q = 0 -> ents i q = [].
+Proof.
+  induction q as [|e r IH]; [reflexivity|]. intros [H1 H2] Hz. rewrite cnt_cons in Hz.
+  cbn [ents flat_map]. fold (ents i r). rewrite IH; [|exact H2|lia].
+  destruct e as [j c|]; [|reflexivity]. cbn [is_cop] in H1.
+  destruct (Nat.eqb j i); [|reflexivity]. specialize (H1 eq_refl). rewrite cnt_cons in H1. lia.
+Qed.
+
 Lemma race_state_reclaimed_exactly_once_holds : race_state_reclaimed_exactly_once.
 Proof.
-  split; [|split; [|split; [|split; [|split]]]].
-  - intros cap0 auto0 canc npolls progs es Hp s.
-    pose proof (reachable_inv cap0 auto0 canc npolls progs es Hp) as HI. fold s in HI.
+  split; [|split; [|split; [|split; [|split; [|split]]]]].
+  - intros cap0 auto0 kinds canc scr npolls progs es Hp s.
+    pose proof (reachable_inv cap0 auto0 kinds canc scr npolls progs es Hp) as HI. fold s in HI.
     split; [|split; [exact (inv_bad _ HI)|split; [exact (inv_tk _ HI)|split; [|split; [|exact (inv_C2 _ HI)]]]]].
     + intros i. pose proof (inv_F _ HI i) as HF. destruct (o_alloc (ops s i)); rewrite HF; split; try lia;
         split; intros; try discriminate; try lia; reflexivity.
     + intros i Hd. pose proof (inv_tk _ HI i) as Ht. pose proof (inv_F _ HI i) as HF. rewrite Hd in Ht. cbn [live] in Ht.
-      destruct (o_alloc (ops s i)); cbn [andb] in Ht; [left|right]; auto.
+      destruct (o_alloc (ops s i)); cbn [andb] in Ht; [left; auto|right].
+      split; [reflexivity|]. split; [exact Ht|]. split; [exact HF|].
+      apply (no_token_no_entry i _ _ (inv_cov _ HI i)). unfold tokens in Ht. lia.
     + intros i. destruct (inv_C _ HI i) as [H|[H H']]; rewrite H; split; try lia; intros; try discriminate; assumption.
   - intros s e i0.
-    step_split0 s e; rewrite ?frees_of_wakes, ?frees_of_consumed; unfold frees_of; cbn [filter length];
+    step_split0 s e; rewrite ?frees_of_wakes, ?frees_of_consumed, ?frees_of_wake_obs; unfold frees_of; cbn [filter length];
       rewrite ?Nat.add_0_r; try reflexivity;
       updcase i0 i; ssimpl; rewrite ?Nat.eqb_refl; cbn [length]; try reflexivity; try lia;
       destruct (Nat.eqb_spec i i0); try congruence; cbn [length]; lia.
   - intros s e. step_split0 s e; intros H0 H1; try congruence; rewrite H0 in H1; cbn [orb] in H1;
       exists i; (split; [destruct (o_alloc (ops s i)); [discriminate|reflexivity]|split; [assumption|]]).
-    all: try (left; split; [reflexivity|eexists; reflexivity]).
+    all: try (left; split; [reflexivity|eexists _, _; reflexivity]).
     all: right; exists k; split; [reflexivity|]; eexists _, _; split; [eassumption|cbn; apply Nat.eqb_refl].
-  - intros s i q n Hpc Hn Hq Hh Hd. unfold step, step_with, rstep_with, dispatch, o_update.
+  - intros s i c q n Hpc Hn Hq Hh Hd. unfold step, step_with, rstep_with, rstep_gen, dispatch_with, o_update.
     destruct Hpc as [Hpc|Hpc]; rewrite Hpc, Hn, Hq, Hh, Hd; cbv beta iota zeta.
+    all: destruct (c_more c) eqn:Hm.
     all: match goal with |- context [advance ?x] => destruct (advance_eq x) as [q0 [n0 [p0 [E _]]]]; rewrite E end.
-    all: ssimpl; rewrite upd_same; ssimpl; split; reflexivity.
+    all: ssimpl; rewrite upd_same; ssimpl; repeat split; try reflexivity; assumption.
   - intros s k i r Hpc Hp Hh Hns. unfold step, step_with, fstep, call_start.
     destruct Hpc as [Hpc|Hpc]; rewrite Hpc, Hp, Hh; cbv beta iota zeta.
     all: destruct (o_st (ops s i)); try congruence; ssimpl; rewrite upd_same; ssimpl; repeat split; reflexivity.
+  - intros s e i0. step_split0 s e; rewrite ?frees_of_wakes, ?frees_of_consumed, ?frees_of_wake_obs;
+      unfold frees_of; cbn [filter length]; try lia.
+    all: destruct (Nat.eqb_spec i i0) as [->|Hne]; cbn [length]; try lia; intros _.
+    all: try (left; split; [reflexivity|split; [assumption|eexists _, _; split; [reflexivity|assumption]]]).
+    all: right; eexists _, _; split; [reflexivity|split; [eassumption|congruence]].
   - intros s e i0. step_split0 s e; try (left; reflexivity);
       try (updcase i0 i; [|left; reflexivity]); ssimpl; try (left; reflexivity); try (left; lia).
     all: right; split; [lia|reflexivity].
+Qed.
+
+(** ** C02 under interleaving: every operation receives exactly its own results, once, in order.
+
+    Ledgers per operation: [posted s i] = every completion the kernel has posted for operation [i]
+    so far, in order ([g_disp]: those [Shared::update] was called with, then those waiting in the
+    completion queue); [g_out i] = every value a poll of [i] handed out, in order. Clauses (O), (D),
+    (P) pin the ledgers to single steps, for arbitrary states: (O) [g_out i] grows exactly by the
+    [OReady i v] observations; (D) [g_disp i] grows only in the ring thread's dispatch step of the
+    completion of [i] at the head of the queue, by that completion (completions are routed by the
+    operation they name: no result reaches another operation's state); (P) [posted] only grows, at
+    its end.
+    Main clause, EVERY state reachable by ANY interleaving, all kinds / scripts / capacities:
+    - MULTISHOT: the values handed out are a PREFIX of the results the kernel posted for that very
+      operation, each once, in order; while the stream is live, dispatched = handed out ++ queued;
+      when the stream has ended ([Complete], clause (E): the end marker is handed out only with
+      status Done and an empty queue) EVERYTHING posted was handed out and a final completion
+      (no F_MORE) was among it;
+    - SINGLE / TWO-STEP: at most one value is ever handed out; when one was, the final completion
+      had been dispatched, nothing of the operation is left in the queue, and the value is
+      [last_res] of what the kernel posted for it: the result of its last completion without
+      F_NOTIF (K2 shape: when exactly one posted completion is not a notification it is that
+      completion's -- the first --, last clause; the zero-copy notification does not overwrite it). *)
+Definition outs_of (i : nat) (out : list obs) : list Z :=
+  flat_map (fun o => match o with OReady j v => if Nat.eqb j i then [v] else [] | _ => [] end) out.
+
+Lemma outs_of_wakes i l : outs_of i (map OWakeB l) = [].
+Proof. induction l as [|x l IH]; [reflexivity|]. exact IH. Qed.
+Lemma outs_of_consumed i l : outs_of i (map OConsumed l) = [].
+Proof. induction l as [|x l IH]; [reflexivity|]. exact IH. Qed.
+Lemma outs_of_wake_obs i o : outs_of i (wake_obs o) = [].
+Proof. unfold wake_obs. destruct (o_waker o); reflexivity. Qed.
+
+Lemma ex_add_eq {A} (x y : list A) : x = y -> exists add, x = y ++ add.
+Proof. intros ->. exists []. symmetry. apply app_nil_r. Qed.
+
+Lemma posted_grows s e i0 : exists add, posted (fst (step s e)) i0 = posted s i0 ++ add.
+Proof.
+  unfold posted. step_split0 s e;
+    try match goal with H : cq s = _ |- _ => rewrite ?H end;
+    try (apply ex_add_eq; reflexivity);
+    try (destruct Hkadd as [add ->]; exists (ents i0 add); rewrite ents_app, app_assoc; reflexivity);
+    try (rewrite Hadve; apply ex_add_eq; reflexivity);
+    try (rewrite Hadve; match goal with H : cq s = _ |- _ => rewrite H end; apply ex_add_eq; reflexivity);
+    try (updcase i0 i; ssimpl; apply ex_add_eq; reflexivity).
+  all: rewrite Hadve; cbn [ents flat_map]; fold (ents i0 l); apply ex_add_eq; updcase i0 i; ssimpl; rewrite ?Nat.eqb_refl;
+    try (destruct (Nat.eqb_spec i i0); [congruence|]); rewrite <- ?app_assoc; reflexivity.
+Qed.
+
+Lemma last_res_only l1 c0 l2 :
+  forallb c_notif l2 = true -> c_notif c0 = false -> last_res (l1 ++ c0 :: l2) = c_res c0.
+Proof.
+  intros H2 H0. unfold last_res. rewrite fold_left_app. cbn [fold_left]. rewrite H0.
+  generalize (c_res c0). induction l2 as [|c l IH]; intros z; [reflexivity|].
+  cbn [forallb] in H2. apply andb_prop in H2. destruct H2 as [Hc Hl]. cbn [fold_left]. rewrite Hc. apply IH. exact Hl.
+Qed.
+
+Definition race_results_are_own_in_order : Prop :=
+  (forall cap0 auto0 kinds canc scr npolls progs es, progs_ok progs ->
+     let s := fst (run step (init cap0 auto0 kinds canc scr npolls progs) es) in
+     forall i,
+       (o_kind (ops s i) = Multi ->
+          (exists rest, map c_res (posted s i) = g_out (ops s i) ++ rest)
+          /\ (o_st (ops s i) = Running \/ o_st (ops s i) = Done ->
+                map c_res (g_disp (ops s i)) = g_out (ops s i) ++ o_q (ops s i))
+          /\ (o_st (ops s i) = Complete ->
+                g_out (ops s i) = map c_res (posted s i) /\ has_final (posted s i) = true))
+       /\ (o_kind (ops s i) <> Multi ->
+            length (g_out (ops s i)) <= 1
+            /\ forall v, g_out (ops s i) = [v] ->
+                 o_st (ops s i) = Complete /\ has_final (posted s i) = true
+                 /\ posted s i = g_disp (ops s i) /\ v = last_res (posted s i)))
+  /\ (forall s e i, g_out (ops (fst (step s e)) i) = g_out (ops s i) ++ outs_of i (snd (step s e)))
+  /\ (forall s e i, g_disp (ops (fst (step s e)) i) <> g_disp (ops s i) ->
+        e = T 0 /\ (r_pc s = RDisp \/ r_pc s = RDispSpin)
+        /\ exists c q, cq s = COp i c :: q /\ g_disp (ops (fst (step s e)) i) = g_disp (ops s i) ++ [c])
+  /\ (forall s e i, exists add, posted (fst (step s e)) i = posted s i ++ add)
+  /\ (forall s e i, In (OEnd i) (snd (step s e)) ->
+        o_kind (ops s i) = Multi /\ o_st (ops s i) = Done /\ o_q (ops s i) = []
+        /\ o_st (ops (fst (step s e)) i) = Complete)
+  /\ (forall l1 c0 l2, forallb c_notif l2 = true -> c_notif c0 = false -> last_res (l1 ++ c0 :: l2) = c_res c0).
+
+Lemma race_results_are_own_in_order_holds : race_results_are_own_in_order.
+Proof.
+  split; [|split; [|split; [|split; [|split]]]].
+  - intros cap0 auto0 kinds canc scr npolls progs es Hp s i.
+    pose proof (reachable_inv cap0 auto0 kinds canc scr npolls progs es Hp) as HI. fold s in HI.
+    pose proof (inv_L _ HI i) as [L1 [L2 L3]]. pose proof (inv_tk _ HI i) as Ht. pose proof (inv_cov _ HI i) as Hc.
+    assert (Hnone : o_st (ops s i) = Complete -> ents i (cq s) = []).
+    { intros Hst. rewrite Hst, andb_false_r in Ht. apply (no_token_no_entry i _ _ Hc). unfold tokens in Ht. lia. }
+    split.
+    + intros Hk. rewrite Hk in L3. destruct L3 as [[rest L3a] [L3b L3c]]. split; [|split].
+      * exists (rest ++ map c_res (ents i (cq s))). unfold posted. rewrite map_app, L3a, app_assoc. reflexivity.
+      * exact L3b.
+      * intros Hst. unfold posted. rewrite (Hnone Hst), app_nil_r. split; [symmetry; exact (L3c Hst)|].
+        apply L2. right. exact Hst.
+    + intros Hk.
+      assert (L3' : (o_st (ops s i) = Running \/ o_st (ops s i) = Done ->
+                      o_res (ops s i) = last_res (g_disp (ops s i)) /\ g_out (ops s i) = [])
+                    /\ (o_st (ops s i) = Complete -> g_out (ops s i) = [last_res (g_disp (ops s i))])
+                    /\ (o_st (ops s i) = Dropped -> g_out (ops s i) = []))
+        by (destruct (o_kind (ops s i)); [exact L3|congruence|exact L3]).
+      destruct L3' as [La [Lb Lc]].
+      assert (Hcases : g_out (ops s i) = [] \/ o_st (ops s i) = Complete).
+      { destruct (o_st (ops s i)) eqn:Hst; auto.
+        - left. exact (proj2 (L1 eq_refl)).
+        - left. exact (proj2 (La (or_introl eq_refl))).
+        - left. exact (proj2 (La (or_intror eq_refl))). }
+      split.
+      * destruct Hcases as [H|H]; [rewrite H; cbn; lia|rewrite (Lb H); cbn; lia].
+      * intros v Hv. destruct Hcases as [H|H]; [rewrite H in Hv; discriminate|].
+        unfold posted. rewrite (Hnone H), app_nil_r. split; [exact H|]. split; [apply L2; right; exact H|].
+        split; [reflexivity|]. rewrite (Lb H) in Hv. injection Hv as <-. reflexivity.
+  - intros s e i0.
+    step_split0 s e; rewrite ?outs_of_wakes, ?outs_of_consumed, ?outs_of_wake_obs; cbn [outs_of flat_map app];
+      rewrite ?app_nil_r; try reflexivity;
+      updcase i0 i; ssimpl; rewrite ?Nat.eqb_refl, ?app_nil_r; try reflexivity;
+      destruct (Nat.eqb_spec i i0); try congruence; rewrite ?app_nil_r; reflexivity.
+  - intros s e i0. step_split0 s e; intros H; try (exfalso; apply H; reflexivity);
+      try (updcase i0 i; [|exfalso; apply H; reflexivity]); ssimpl;
+      try (exfalso; apply H; reflexivity).
+    all: split; [reflexivity|split; [rewrite ?Hpc; auto|eexists _, _; split; reflexivity]].
+  - exact posted_grows.
+  - intros s e i0. step_split0 s e; intros H; cbn [In] in H;
+      repeat (destruct H as [H|H]; try discriminate); try contradiction;
+      try (apply in_map_iff in H; destruct H as [? [? ?]]; discriminate);
+      try (apply In_wake_obs in H; destruct H as [? H]; discriminate).
+    all: injection H as <-; rewrite upd_same; ssimpl; auto.
+  - exact last_res_only.
 Qed.
 
 (** * Non-vacuity: a concrete interleaving
@@ -894,13 +1347,13 @@ Qed.
 
 Example race_example :
   progs_ok ex_progs
-  /\ (let s := fst (run step (init 1%N true [] 3 ex_progs) ex_mid) in
+  /\ (let s := fst (run step (init 1%N true [] [] [] 3 ex_progs) ex_mid) in
       (* hypotheses of the wake-up theorem: the latest waker of operation 0 is 3, its completion was dispatched *)
       g_lastw (ops s 0) = Some 3%N /\ o_st (ops s 0) = Done /\ g_woken (ops s 0) = true
       /\ g_parked s = [2%N] /\ g_bwoken s = [2%N] /\ blocked s = [])
-  /\ (let r := run step (init 1%N true [] 3 ex_progs) ex_all in
+  /\ (let r := run step (init 1%N true [] [] [] 3 ex_progs) ex_all in
       snd r = [OPending 0 1%N; OConsumed (Submit 0); OParked 1 2%N; OPending 0 3%N; OWakeB 2%N; OWake 3%N;
-               OPending 2 5%N; OReady 0; OFree 0 true; OConsumed (Submit 2); OFree 2 true]
+               OPending 2 5%N; OReady 0 7%Z; OFree 0 true; OConsumed (Submit 2); OFree 2 true]
       /\ o_st (ops (fst r) 2) = Dropped /\ o_alloc (ops (fst r) 2) = false /\ g_frees (ops (fst r) 2) = 1
       /\ g_cancels (ops (fst r) 2) = 0 /\ g_frees (ops (fst r) 0) = 1 /\ g_bad (fst r) = false).
 Proof. split; [exact ex_progs_ok|]. split; vm_compute; repeat split; reflexivity. Qed.
@@ -921,7 +1374,7 @@ Definition quiet (s : sys) : Prop :=
 Lemma quiet_step s : quiet s ->
   quiet (fst (step_h15 s (T 0))) /\ snd (step_h15 s (T 0)) = [] /\ blocked (fst (step_h15 s (T 0))) = blocked s.
 Proof.
-  intros [Hcq [Hsq [Hn Hpc]]]. unfold quiet, step_h15, step_with, rstep_with.
+  intros [Hcq [Hsq [Hn Hpc]]]. unfold quiet, step_h15, step_with, rstep_with, rstep_gen.
   destruct (r_pc s) eqn:E; try contradiction.
   - destruct (r_polls s); ssimpl; rewrite ?E; auto.
   - rewrite Hcq. ssimpl. auto.
@@ -951,7 +1404,7 @@ Definition h15_events : list ev :=
 Definition race_parked_waker_h15_lost : Prop :=
   exists progs es w, progs_ok progs /\
     forall further_polls,
-      let s := fst (run step_h15 (init 1%N true [] (1 + further_polls) progs) es) in
+      let s := fst (run step_h15 (init 1%N true [] [] [] (1 + further_polls) progs) es) in
       blocked s = [w] /\ sq s = [] /\ r_polls s = further_polls /\ r_pc s = RIdle
       /\ forall k, blocked (fst (run step_h15 s (repeat (T 0) k))) = [w]
                    /\ snd (run step_h15 s (repeat (T 0) k)) = [].
@@ -978,7 +1431,7 @@ Qed.
 
 (** With the repaired code the very next poll wakes it (same interleaving, [step]). *)
 Example race_parked_waker_fixed_is_woken :
-  let s := fst (run step (init 1%N true [] 2 h15_progs)
+  let s := fst (run step (init 1%N true [] [] [] 2 h15_progs)
                     (repeat (T 1) 8 ++ repeat (T 1) 3 ++ repeat (T 0) 5 ++ repeat (T 0) 3 ++ repeat (T 0) 4
                      ++ repeat (T 0) 3 ++ [T 1])) in
   blocked s = [2%N] /\ r_pc s = RIdle
@@ -1001,7 +1454,7 @@ Definition c06a_events : list ev :=
 
 Definition race_reclaimed_c06a_leaks : Prop :=
   exists progs es, progs_ok progs /\
-    let r := run step_c06a (init 2%N true [] 3 progs) es in
+    let r := run step_c06a (init 2%N true [] [] [] 3 progs) es in
     let s := fst r in
     o_st (ops s 0) = Dropped /\ o_alloc (ops s 0) = true /\ g_frees (ops s 0) = 0
     /\ tokens s 0 = 0 /\ sq s = [] /\ cq s = [] /\ inflight s = []
@@ -1023,13 +1476,143 @@ Proof.
   exists c06a_progs, c06a_events. split; [exact c06a_progs_ok|]. vm_compute. repeat split; reflexivity.
 Qed.
 
+(** * Non-vacuity for the multishot and two-step clauses
+
+    Two slots; operation 0 is a multishot accept whose request posts 11, 12 (F_MORE) and 13
+    (final), operation 1 a zero-copy send posting 21 (F_MORE) and the notification. One future
+    thread submits both; after the kernel consumed them it re-polls the stream with waker 3
+    (replacing waker 1); the kernel posts 11 and 21; the ring thread dispatches both: the stream's
+    LATEST waker 3 is woken, the send's result wakes nobody and its waker stays ([ex_mid] ends
+    here: the hypotheses of the multishot clause hold with a queued result). The thread takes 11,
+    finds the queue empty (Pending, waker 5), re-polls the send (waker 6); the kernel posts 12, 13
+    (final) and the notification; one ring poll dispatches all three: waker 5 for the stream (13
+    finds no waker stored), waker 6 for the send -- only now, on its FINAL completion. The thread
+    takes 12, 13, the send's result 21 (not the notification's 0), drops the send, gets the end of
+    the stream and drops it. *)
+Definition mr (r : Z) : cqe := {| c_res := r; c_more := true; c_notif := false |}.
+Definition ntf : cqe := {| c_res := 0; c_more := false; c_notif := true |}.
+Definition exk_progs : list (list call) :=
+  [[Poll 0 1%N; Poll 1 2%N; Poll 0 3%N; Poll 0 4%N; Poll 0 5%N; Poll 1 6%N; Poll 0 7%N; Poll 0 8%N; Poll 1 9%N;
+    DropOp 1; Poll 0 10%N; DropOp 0]].
+Definition exk_scripts : list (list cqe) := [[mr 11; mr 12; fin 13]; [mr 21; ntf]].
+Definition exk_mid : list ev :=
+  repeat (T 1) 16 ++ repeat (T 0) 14 ++ [T 1; K 0; K 1] ++ repeat (T 0) 4.
+Definition exk_all : list ev :=
+  exk_mid ++ repeat (T 0) 4 ++ [T 1; T 1; T 1; K 0; K 0; K 1] ++ repeat (T 0) 9 ++ repeat (T 1) 6.
+
+Lemma exk_progs_ok : progs_ok exk_progs.
+Proof.
+  split.
+  - intros [|t]; cbn [nth exk_progs linear]; repeat split; try exact I;
+      try (intros H; uses_inv H; discriminate). destruct t; exact I.
+  - intros t1 t2 i H1 H2.
+    destruct t1 as [|t1]; destruct t2 as [|t2]; try reflexivity; cbn [nth exk_progs] in H1, H2;
+      try (exfalso; destruct t1; exact (uses_nil _ H1)); try (exfalso; destruct t2; exact (uses_nil _ H2)).
+Qed.
+
+Example race_example_kinds :
+  progs_ok exk_progs
+  /\ (let s := fst (run step (init 2%N false [Multi; TwoStep] [true; true] exk_scripts 3 exk_progs) exk_mid) in
+      (* multishot: latest waker 3, a result queued, woken; two-step: result stored, not woken, waker kept *)
+      o_kind (ops s 0) = Multi /\ o_st (ops s 0) = Running /\ g_lastw (ops s 0) = Some 3%N /\ o_q (ops s 0) = [11%Z]
+      /\ g_woken (ops s 0) = true
+      /\ o_st (ops s 1) = Running /\ o_res (ops s 1) = 21%Z /\ g_lastw (ops s 1) = Some 2%N
+      /\ g_woken (ops s 1) = false /\ o_waker (ops s 1) = Some 2%N)
+  /\ (let r := run step (init 2%N false [Multi; TwoStep] [true; true] exk_scripts 3 exk_progs) exk_all in
+      snd r = [OPending 0 1%N; OPending 1 2%N; OConsumed (Submit 0); OConsumed (Submit 1); OPending 0 3%N; OWake 3%N;
+               OReady 0 11%Z; OPending 0 5%N; OPending 1 6%N; OWake 5%N; OWake 6%N; OReady 0 12%Z; OReady 0 13%Z;
+               OReady 1 21%Z; OFree 1 true; OEnd 0; OFree 0 true]
+      /\ g_out (ops (fst r) 0) = [11%Z; 12%Z; 13%Z] /\ map c_res (posted (fst r) 0) = [11%Z; 12%Z; 13%Z]
+      /\ g_out (ops (fst r) 1) = [21%Z] /\ posted (fst r) 1 = [mr 21; ntf]
+      /\ g_frees (ops (fst r) 0) = 1 /\ g_frees (ops (fst r) 1) = 1 /\ g_bad (fst r) = false).
+Proof. split; [exact exk_progs_ok|]. split; vm_compute; repeat split; reflexivity. Qed.
+
+(** * Seeded change C02-a: [Multishot::next] takes with [swap_remove(0)]
+
+    [step_c02a]. A valid interleaving: the stream is submitted, the kernel posts 11, 12, 13, one
+    ring poll dispatches all three (queue [11; 12; 13]), three polls: 11 -- and 13 has taken its
+    place --, 13, 12. The handed-out order differs from the posted order: the multishot clause of
+    [race_results_are_own_in_order] (handed out = a prefix of posted) fails. *)
+Definition c02a_progs : list (list call) := [[Poll 0 1%N; Poll 0 2%N; Poll 0 3%N; Poll 0 4%N]].
+Definition c02a_events : list ev :=
+  repeat (T 1) 8 ++ repeat (T 0) 20 ++ [K 0; K 0; K 0] ++ repeat (T 0) 20 ++ [T 1; T 1; T 1].
+
+Definition race_stream_order_c02a_refuted : Prop :=
+  exists progs scr es, progs_ok progs /\
+    let s := fst (run step_c02a (init 2%N false [Multi] [true] scr 2 progs) es) in
+    map c_res (posted s 0) = [11%Z; 12%Z; 13%Z] /\ g_out (ops s 0) = [11%Z; 13%Z; 12%Z]
+    /\ ~ (exists rest, map c_res (posted s 0) = g_out (ops s 0) ++ rest)
+    (* the unchanged code, same interleaving *)
+    /\ g_out (ops (fst (run step (init 2%N false [Multi] [true] scr 2 progs) es)) 0) = [11%Z; 12%Z; 13%Z].
+
+Lemma c02a_progs_ok : progs_ok c02a_progs.
+Proof.
+  split.
+  - intros [|t]; cbn [nth c02a_progs linear]; repeat split; try exact I. destruct t; exact I.
+  - intros t1 t2 i H1 H2.
+    destruct t1 as [|t1]; destruct t2 as [|t2]; try reflexivity; cbn [nth c02a_progs] in H1, H2;
+      try (exfalso; destruct t1; exact (uses_nil _ H1)); try (exfalso; destruct t2; exact (uses_nil _ H2)).
+Qed.
+
+Lemma race_stream_order_c02a_refuted_holds : race_stream_order_c02a_refuted.
+Proof.
+  exists c02a_progs, [[mr 11; mr 12; mr 13]], c02a_events. split; [exact c02a_progs_ok|].
+  split; [vm_compute; reflexivity|]. split; [vm_compute; reflexivity|]. split; [|vm_compute; reflexivity].
+  intros [rest H]. vm_compute in H. discriminate.
+Qed.
+
+(** * Seeded change C06-b: a dropped two-step operation released on its first completion
+
+    [step_c06b]. A zero-copy send is submitted and consumed, its future dropped (the cancel request
+    loses: -EALREADY), the kernel posts the result completion (F_MORE): its dispatch frees the state
+    although the request is still in flight and its notification outstanding (clause (c) of
+    [race_state_reclaimed_exactly_once] fails: freed with one item owed). When the notification is
+    posted and dispatched the ring thread takes the mutex inside the freed box ([g_bad]) and frees
+    it a second time. On the unchanged code ([step]) the same interleaving frees exactly once, on
+    the notification. *)
+Definition c06b_progs : list (list call) := [[Poll 0 1%N; DropOp 0]].
+Definition c06b_events1 : list ev :=
+  repeat (T 1) 8 ++ repeat (T 0) 14 ++ repeat (T 1) 8 ++ repeat (T 0) 14 ++ [K 0] ++ repeat (T 0) 14.
+Definition c06b_events2 : list ev := c06b_events1 ++ [K 0] ++ repeat (T 0) 14.
+
+Definition race_two_step_c06b_freed_early : Prop :=
+  exists progs scr es1 es2, progs_ok progs /\
+    (let r := run step_c06b (init 2%N false [TwoStep] [false] scr 12 progs) es1 in
+     let s := fst r in
+     snd r = [OPending 0 1%N; OConsumed (Submit 0); OConsumed (Cancel 0); OFree 0 true]
+     /\ o_st (ops s 0) = Dropped /\ o_alloc (ops s 0) = false /\ inflight s = [0] /\ scripts s 0 = [ntf]
+     /\ tokens s 0 = 1 /\ g_bad s = false)
+    /\ (let s := fst (run step_c06b (init 2%N false [TwoStep] [false] scr 12 progs) (es1 ++ es2)) in
+        g_bad s = true /\ g_frees (ops s 0) = 2)
+    /\ (let r := run step (init 2%N false [TwoStep] [false] scr 12 progs) (es1 ++ es2) in
+        snd r = [OPending 0 1%N; OConsumed (Submit 0); OConsumed (Cancel 0); OFree 0 true]
+        /\ o_alloc (ops (fst (run step (init 2%N false [TwoStep] [false] scr 12 progs) es1)) 0) = true
+        /\ g_bad (fst r) = false /\ g_frees (ops (fst r) 0) = 1 /\ inflight (fst r) = []).
+
+Lemma c06b_progs_ok : progs_ok c06b_progs.
+Proof.
+  split.
+  - intros [|t]; cbn [nth c06b_progs linear]; repeat split; try exact I;
+      try (intros H; uses_inv H). destruct t; exact I.
+  - intros t1 t2 i H1 H2.
+    destruct t1 as [|t1]; destruct t2 as [|t2]; try reflexivity; cbn [nth c06b_progs] in H1, H2;
+      try (exfalso; destruct t1; exact (uses_nil _ H1)); try (exfalso; destruct t2; exact (uses_nil _ H2)).
+Qed.
+
+Lemma race_two_step_c06b_freed_early_holds : race_two_step_c06b_freed_early.
+Proof.
+  exists c06b_progs, [[mr 21; ntf]], c06b_events1, ([K 0] ++ repeat (T 0) 14). split; [exact c06b_progs_ok|].
+  split; [vm_compute; repeat split; reflexivity|]. split; vm_compute; repeat split; reflexivity.
+Qed.
+
 (** * Towards a linearisation (partial)
 
     What is proved: PER OPERATION the small-step execution is an execution of the atomic life
     cycle of Model/OpState.v with stuttering. Forget the mutex and the ghosts
     ([abs o = (status, waker, allocated)]); then every step of every reachable small-step
     execution changes [abs] of every operation by exactly one transition of the atomic machine
-    ([atomic_trans], the single-shot fragment of OpState's [poll] / [drop_op] / [update]) or not
+    ([atomic_trans]: OpState's [poll] / [drop_op] / [update] on status, stored waker and
+    allocation; handing out a stream item and storing a two-step result do not change [abs]) or not
     at all: each API call and each dispatch takes effect in ONE step, its linearisation point
     (the first step of a call on a Running / Done / non-running operation; the tail store of
     [Submissions::add] for a submitting poll and for a drop that queues its cancel; the failed
@@ -1057,17 +1640,18 @@ Inductive atomic_trans : status * option N * bool -> status * option N * bool ->
   | at_drop_running wk al : atomic_trans (Running, wk, al) (Dropped, wk, al)
   | at_drop_free x wk : x <> Running -> x <> Dropped -> atomic_trans (x, wk, true) (x, wk, false)
   | at_update_done wk : atomic_trans (Running, wk, true) (Done, None, true)
+  | at_update_more wk : atomic_trans (Running, wk, true) (Running, None, true)   (* multishot: a result with F_MORE *)
   | at_update_free wk : atomic_trans (Dropped, wk, true) (Dropped, wk, false).
 
 Definition race_refines_atomic_per_operation_partial : Prop :=
-  forall cap0 auto0 canc npolls progs es e, progs_ok progs ->
-    let s := fst (run step (init cap0 auto0 canc npolls progs) es) in
+  forall cap0 auto0 kinds canc scr npolls progs es e, progs_ok progs ->
+    let s := fst (run step (init cap0 auto0 kinds canc scr npolls progs) es) in
     forall j, atomic_trans (abs (ops s j)) (abs (ops (fst (step s e)) j)).
 
 Lemma race_refines_atomic_per_operation_partial_holds : race_refines_atomic_per_operation_partial.
 Proof.
-  intros cap0 auto0 canc npolls progs es e Hp s j.
-  pose proof (reachable_inv cap0 auto0 canc npolls progs es Hp) as HI. fold s in HI.
+  intros cap0 auto0 kinds canc scr npolls progs es e Hp s j.
+  pose proof (reachable_inv cap0 auto0 kinds canc scr npolls progs es Hp) as HI. fold s in HI.
   pose proof (step_op_trans s e HI j) as Hot. revert Hot.
   generalize (ops s j) (ops (fst (step s e)) j). intros o o' Hot. unfold abs.
   inversion Hot; subst; ssimpl;
@@ -1075,5 +1659,9 @@ Proof.
     | H : o_st o = _ |- _ => rewrite H
     | H : o_alloc o = _ |- _ => rewrite H
     end;
-    first [ apply at_update_free | solve [constructor; assumption] | constructor ].
+    try (solve [apply at_stutter | apply at_poll_pending | apply at_poll_submit | apply at_poll_ready
+               | apply at_drop_running | apply at_update_free | apply at_drop_free; assumption ]).
+  (* a completion is accepted *)
+  destruct (c_more c); cbn [negb orb]; [|apply at_update_done].
+  destruct (is_multi (o_kind o)); [apply at_update_more|apply at_stutter].
 Qed.
